@@ -7,6 +7,7 @@ import procoracle as po
 FAMILIES = ['process', 'component']
 BRIDGES = ['br_proc_', 'br_nonideal_', 'br_hvap_', 'br_cp', 'br_cool']
 PROPS_V = 'Props/C03.v'
+EXTRA_TARGETS = ['Model/NumCheck.vo']
 BUDGET = {'quick': 150, 'thorough': 4000}
 ORACLE_RULE = ('random runs of the 4 process kinds x permeate modes x mixtures x {self-cooling, polynomial/exponential/logarithmic programme}; heats and '
                'temperatures recomputed from the public Component methods; isothermal/non-isothermal twins compared at step 0')
@@ -78,6 +79,14 @@ def oracle(rng, tier):
                 pass
         yield {'kind': '%s:%s:%s' % (cfg['kind'], cfg['mode'], 'prog' if cfg['prog'] else 'selfcool'), 'case': po.describe(cfg),
                'ok': ok, 'detail': detail, 'nontrivial': cfg['n'] >= 2}
+
+
+def correspondence(tier, seed):
+    import corr_numeric
+    budget = {'process': 24, 'component': 10}
+    if tier == 'thorough':
+        budget = {k: v * 12 for k, v in budget.items()}
+    return corr_numeric.run(seed, budget, nmax=30 if tier == 'quick' else 200, tag='C03')
 
 
 def replay(rep):
